@@ -45,6 +45,9 @@ def make_psds(seed, lead, D, tk, nk):
         elif tk == 'rank2':
             b = A.cnormal(r, (D,))
             Pxx[idx] = np.outer(a, a.conj()) + 0.3 * np.outer(b, b.conj())
+        elif tk == 'dominant':
+            # a strongly dominant source that is NOT exactly rank one (diffuse part 50 dB below)
+            Pxx[idx] = np.outer(a, a.conj()) + 1e-5 * A.hpd(seed, D, 20.0, 'c12xd', idx)
         elif tk == 'real_full':
             # real symmetric target PSD, handed over with a real dtype (see below)
             ar = r.standard_normal(D) * np.sqrt(2)
@@ -266,7 +269,7 @@ def subchecks(tier, seed):
         for seed in seeds_:
             for D in (2, 3, 5, 8):
                 for lead in leads:
-                    for tk in ('rank1', 'rank2', 'full', 'real_full', 'diag_up', 'axis_rank1'):
+                    for tk in ('rank1', 'rank2', 'full', 'real_full', 'diag_up', 'axis_rank1', 'dominant'):
                         for nk in ('identity', 'cond1e3', 'cond1e6', 'diag'):
                             for use_eig in (False, True):
                                 for layout in ('c_readonly', 'fortran') + (('lead_transposed',) if len(lead) >= 2 else ()):
@@ -278,8 +281,12 @@ def subchecks(tier, seed):
         for seed in seeds_:
             for D in (2, 3, 5, 8):
                 for lead in leads:
-                    for tk in ('rank1', 'rank2', 'full', 'real_full', 'diag_up', 'diag_down', 'axis_rank1'):
+                    for tk in ('rank1', 'rank2', 'full', 'real_full', 'diag_up', 'diag_down', 'axis_rank1', 'dominant'):
                         for scaling in (None, 'trace', 'eigenvalue'):
                             yield (D, lead, tk, scaling, seed)
+            # stacks of a few thousand matrices (e.g. sources x 513 bins, or one matrix per frame)
+            for lead in ((4, 513), (2051,), (4100,)):
+                for D, tk in ((2, 'full'), (3, 'rank2')):
+                    yield (D, lead, tk, 'eigenvalue' if D == 2 else None, seed)
     subs.append(Sub('pca', ('D', 'lead', 'target', 'scaling', 'seed'), pca_cases, run_pca))
     return subs
